@@ -463,17 +463,9 @@ impl World {
         ctx.count(&format!("op.{}", op.split(' ').next().unwrap_or("")));
         ctx.case(op, &format!("{} | ML {} | MR {}", answer, ml, mr));
         if let Some((_, followers)) = &self.cluster {
-            let target = varpulis_cluster::raft::store::verif_applied::get(&self.shared).and_then(|x| x.0);
+            // the followers were synchronised by the `emit` that precedes every model line
             let followers: Vec<_> = followers.iter().map(|(i, c, s)| (*i, c.clone(), s.clone())).collect();
-            for (fid, fcoord, fshared) in followers {
-                let t0 = std::time::Instant::now();
-                loop {
-                    if varpulis_cluster::raft::store::verif_applied::get(&fshared).and_then(|x| x.0) == target { break; }
-                    if !self.still_leader() { self.aborted = true; return; }
-                    if t0.elapsed() > Duration::from_secs(120) { infra(&format!("follower {fid} did not catch up within 120 s")); }
-                    tokio::time::sleep(Duration::from_millis(20)).await;
-                }
-                { let mut c = fcoord.write().await; c.update_raft_role(); c.sync_from_raft(); }
+            for (fid, fcoord, _fshared) in followers {
                 let mf = { let c = fcoord.read().await; Self::models_dump(&c.model_registry) };
                 ctx.count("op.fmodels");
                 ctx.case(&format!("fmodels {}", fid), &format!("ok | ML {} | MF {}", ml, mf));
@@ -483,14 +475,16 @@ impl World {
     async fn model_upload(&mut self, ctx: &mut Ctx, name: &str) {
         let body = serde_json::json!({"name": name, "inputs": ["x"], "outputs": ["y"], "description": "d"});
         let (st, _) = api!(self, "POST", "/api/v1/cluster/models", Some(body));
+        self.emit(ctx, "noop model-upload", "ok").await; // the view itself is untouched; followers sync here
         self.emit_models(ctx, &format!("modelup {} models_{}.onnx", name, name), if st == 201 { "ok" } else { "err" }).await;
     }
     async fn model_delete(&mut self, ctx: &mut Ctx, name: &str) {
         let (st, _) = api!(self, "DELETE", &format!("/api/v1/cluster/models/{}", name), None);
+        self.emit(ctx, "noop model-delete", "ok").await;
         self.emit_models(ctx, &format!("modeldel {}", name), if st == 200 { "ok" } else { "notfound" }).await;
     }
     async fn models_after_sync(&mut self, ctx: &mut Ctx) {
-        { let mut c = self.coord.write().await; c.update_raft_role(); c.sync_from_raft(); }
+        self.sync_only(ctx).await;
         self.emit_models(ctx, "msync", "ok").await;
     }
     async fn startup_policy(&mut self, ctx: &mut Ctx, p: Option<ScalingPolicy>) {
